@@ -74,7 +74,9 @@ Definition model_list (st : store) (t : fstree) : list (string * bool * N * stri
   map (fun k => match assoc_get k all with Some (d, n, x) => (k, d, n, x) | None => (k, false, 0%N, "") end)
       (sort_strs (map fst all)).
 
-Definition model_b (c : case) : bool :=
+Definition pdh_of (t : string) : string := md5hex t ++ "+" ++ dec (slen t).
+(* h = pdh (c_txt c), passed in so that check_case computes each MD5 once *)
+Definition model_with (h : string) (c : case) : bool :=
   let st := st_fun (c_store c) in
   negb (o_panic c) &&
   match fs_load (c_txt c) with
@@ -84,15 +86,17 @@ Definition model_b (c : case) : bool :=
       list_eqb (entry_eqb (c_kind c =? 0)%N) (o_list c) (model_list st t) &&
       opt_eqb String.eqb (o_marshal c) (Some (fs_marshal t))
   end &&
-  String.eqb (o_pdh c) (pdh (c_txt c)) &&
+  String.eqb (o_pdh c) h &&
   (String.eqb (c_txt c) "" || opt_eqb str_list_eqb (o_sd c) (sized_digests (c_txt c))).
+Definition model_b (c : case) : bool := model_with (pdh (c_txt c)) c.
 
 (* clauses that hold for every input *)
 Definition spec_always (c : case) : bool := negb (o_panic c).
 (* malformed_rejected *)
 Definition spec_reject (c : case) : bool := wf_manifest (c_txt c) || negb (o_load c).
 (* agreement with the reference on valid manifests *)
-Definition spec_valid (c : case) : bool :=
+(* h = pdh_of (strip_manifest (c_txt c)) *)
+Definition spec_valid_with (h : string) (c : case) : bool :=
   if negb (valid_manifest (c_txt c)) then true else
   match parse_manifest (c_txt c) with
   | None => false
@@ -116,17 +120,24 @@ Definition spec_valid (c : case) : bool :=
           end
       | None => false
       end &&
-      (let s := strip_manifest (c_txt c) in String.eqb (o_pdh c) (md5hex s ++ "+" ++ dec (slen s))) &&
+      String.eqb (o_pdh c) h &&
       (String.eqb (c_txt c) "" ||
        opt_eqb str_list_eqb (o_sd c) (Some (map loc_strip (flat_map s_blocks m))))
   end.
+Definition spec_valid (c : case) : bool := spec_valid_with (pdh_of (strip_manifest (c_txt c))) c.
 Definition spec_b (c : case) : bool := spec_always c && spec_valid c && spec_reject c.
 (* F15: a file token whose offset+length overflows int64 *)
 Definition known_F15_b (c : case) : bool := has_overflow_tok (2 ^ 63) (c_txt c).
 
+(* = (if model_b c then 0 else 1) + (if spec ... ), with the two MD5 computations shared when the texts coincide
+   (lemma check_case_eq in proofs/C10_run_proofs.v) *)
 Definition check_case (c : case) : N :=
-  ((if model_b c then 0 else 1) +
-   (if spec_always c && spec_valid c then (if spec_reject c then 0 else if known_F15_b c then 4 else 2) else 2))%N.
+  let pt := pdh_text (c_txt c) in
+  let sm := strip_manifest (c_txt c) in
+  let h := pdh_of pt in
+  let h' := if String.eqb sm pt then h else pdh_of sm in
+  ((if model_with h c then 0 else 1) +
+   (if spec_always c && spec_valid_with h' c then (if spec_reject c then 0 else if known_F15_b c then 4 else 2) else 2))%N.
 Definition failing (cs : list case) : list (N * N) := failing_from check_case 0%N cs.
 End FS.
 
@@ -139,42 +150,46 @@ Inductive gobs :=
 | ObsErr                                   (* Extract(...).Err != nil *)
 | ObsPanic                                 (* the child process died *)
 | ObsEsc (e u : string).                   (* EscapeName(name), UnescapeName(name) *)
-Record case := { c_kind : N; c_txt : string; c_op : gop; o_res : gobs }.
+(* one manifest, several operations on it, each with what the implementation did *)
+Record case := { c_kind : N; c_txt : string; c_ops : list (gop * gobs) }.
 
 Definition iter_eqb (a b : list (string * list seg)) : bool :=
   list_eqb (fun x y => String.eqb (fst x) (fst y) && list_eqb seg_eqb (snd x) (snd y)) a b.
 
-Definition model_b (c : case) : bool :=
-  match c_op c with
+Definition model_op (txt : string) (seg : outcome smanifest) (x : gop * gobs) : bool :=
+  match fst x with
   | OpEsc name =>
-      match o_res c with ObsEsc e u => String.eqb e (gm_escape name) && String.eqb u (gm_unescape name) | _ => false end
+      match snd x with ObsEsc e u => String.eqb e (gm_escape name) && String.eqb u (gm_unescape name) | _ => false end
   | OpIter =>
-      match gm_iter (c_txt c), o_res c with
+      match gm_iter txt, snd x with
       | Unmodelled, _ => true
       | Ok l, ObsIter l' => iter_eqb l' l
       | Panic, ObsPanic => true
       | _, _ => false
       end
   | OpExtract src reloc =>
-      match gm_extract (c_txt c) src reloc, o_res c with
+      match seg, snd x with
       | Unmodelled, _ => true
-      | Ok t, ObsText t' => String.eqb t t'
+      | Ok m, ObsText t' => String.eqb (text_for_path m src reloc) t'
       | Err, ObsErr => true
       | Panic, ObsPanic => true
       | _, _ => false
       end
   end.
+Definition model_b (c : case) : bool :=
+  let seg := gm_segment (c_txt c) in forallb (model_op (c_txt c) seg) (c_ops c).
 
 Definition is_panic (o : gobs) : bool := match o with ObsPanic => true | _ => false end.
 (* no_panic; and malformed (some non-blank line is not well-formed) => Extract reports an error *)
-Definition spec_robust (c : case) : bool :=
-  negb (is_panic (o_res c)) &&
-  match c_op c with
-  | OpExtract _ _ =>
-      forallb wf_line (filter (fun l => negb (String.eqb l "")) (split_on c_nl (c_txt c))) ||
-      match o_res c with ObsErr => true | _ => false end
+Definition robust_op (wf : bool) (x : gop * gobs) : bool :=
+  negb (is_panic (snd x)) &&
+  match fst x with
+  | OpExtract _ _ => wf || match snd x with ObsErr => true | _ => false end
   | _ => true
   end.
+Definition spec_robust (c : case) : bool :=
+  let wf := forallb wf_line (filter (fun l => negb (String.eqb l "")) (split_on c_nl (c_txt c))) in
+  forallb (robust_op wf) (c_ops c).
 
 Definition strip_slash (s : string) : string := if has_suffix_slash s then drop_last s else s.
 Definition extract_ok (m : manifest) (src reloc : string) (out : string) : bool :=
@@ -190,31 +205,33 @@ Definition extract_ok (m : manifest) (src reloc : string) (out : string) : bool 
          | None => false
          end
   end.
+Definition valid_op (m : manifest) (x : gop * gobs) : bool :=
+  match fst x, snd x with
+  | OpIter, ObsIter l =>
+      let expect := flat_map (fun s => map (fun f => let p := path_of (s_name s) (ft_name f) in (p, stream_segs s p))
+                                           (s_ftoks s)) m in
+      list_eqb (fun x y => String.eqb (fst x) (fst y) &&
+                           list_eqb seg_eqb (filter seg_nonempty (snd x)) (snd y)) l expect
+  | OpIter, _ => false
+  | OpExtract src reloc, o =>
+      if valid_stream_name_u src && valid_stream_name_u (strip_slash reloc) then
+        match o with ObsText out => extract_ok m src reloc out | _ => false end
+      else true
+  | OpEsc _, _ => true
+  end.
 Definition spec_valid (c : case) : bool :=
   if negb (valid_manifest (c_txt c)) then true else
   match parse_manifest (c_txt c) with
   | None => false
-  | Some m =>
-      match c_op c, o_res c with
-      | OpIter, ObsIter l =>
-          let expect := flat_map (fun s => map (fun f => let p := path_of (s_name s) (ft_name f) in (p, stream_segs s p))
-                                               (s_ftoks s)) m in
-          list_eqb (fun x y => String.eqb (fst x) (fst y) &&
-                               list_eqb seg_eqb (filter seg_nonempty (snd x)) (snd y)) l expect
-      | OpIter, _ => false
-      | OpExtract src reloc, o =>
-          if valid_stream_name_u src && valid_stream_name_u (strip_slash reloc) then
-            match o with ObsText out => extract_ok m src reloc out | _ => false end
-          else true
-      | OpEsc _, _ => true
-      end
+  | Some m => forallb (valid_op m) (c_ops c)
   end.
-Definition spec_esc (c : case) : bool :=
-  match c_op c, o_res c with
+Definition esc_op (x : gop * gobs) : bool :=
+  match fst x, snd x with
   | OpEsc name, ObsEsc e u => String.eqb (unescape e) name && String.eqb u (unescape name)
   | OpEsc _, _ => false
   | _, _ => true
   end.
+Definition spec_esc (c : case) : bool := forallb esc_op (c_ops c).
 Definition spec_b (c : case) : bool := spec_robust c && spec_valid c && spec_esc c.
 (* F14: a file token whose pos+len overflows uint64 *)
 Definition known_F14_b (c : case) : bool := has_overflow_tok (2 ^ 64) (c_txt c).
